@@ -22,6 +22,8 @@ for s in sorted(res):
         print("| %s | %s | retired: its code site (the Comment arm of the lexer) was removed by fix b100587; caught before that by C04/C05/C12(/C15) |" % (s, desc.get(s, ""))); continue
     if not v and s == "C07-B":
         print("| %s | %s | retired: after fix e277221 an existing test fails with it (the rule now also resolves type declarations' defaults); caught before that by C02 R-C02-scope, C03 R-C03-scope, C07 R-C07-map |" % (s, desc.get(s, ""))); continue
+    if not v and s == "C15-I":
+        print("| %s | %s | neutralised by fix 16e17d2 (the loop it extracted into a shared helper now counts UTF-16 units, so the refactoring is correct); caught before that by C15 R-C15-units |" % (s, desc.get(s, ""))); continue
     if not v and s == "C07-F":
         print("| %s | %s | neutralised by fix 5cee671 (its edge orientation became the correct one; the edit was adopted as fix b97222d) |" % (s, desc.get(s, ""))); continue
     if not v and s == "C04-B":
